@@ -2,6 +2,7 @@
 #include "vh.h"
 using namespace cnl;
 using namespace vh;
+static const bool vh_strict_on = (vh::strict = true);
 
 template<class A>
 using inner_t = std::remove_cvref_t<decltype(innermost(std::declval<A>()))>;
